@@ -70,3 +70,5 @@ Lemma nwm_sym_loop f : forall r, nwm (sym_loop f r). Proof. induction f as [|f I
 #[export] Hint Resolve nwm_sym_loop : nw.
 Lemma nwm_todo_loop f : forall t, nwm (todo_loop f t). Proof. induction f as [|f IH]; intro t; cbn [todo_loop]; nw. Qed.
 #[export] Hint Resolve nwm_todo_loop : nw.
+Lemma nwm_frame_pre : nwm frame_pre. Proof. unfold frame_pre. nw. Qed.
+#[export] Hint Resolve nwm_frame_pre : nw.
